@@ -1,6 +1,7 @@
 package main
 
 import (
+	"fmt"
 	"go/constant"
 	"go/token"
 	"go/types"
@@ -577,6 +578,7 @@ func ruleDropKeep(r *Run) {
 	p := r.P
 	eng := modPath + "/" + enginePkg
 	preds := map[string]*ssa.Function{}
+	inlineOK := map[string]bool{} // stages whose selection is written out in the callback and was decided there
 	for _, s := range []struct {
 		typ, pred string
 		delOn     bool
@@ -614,6 +616,17 @@ func ruleDropKeep(r *Run) {
 					pc = call
 				}
 			}
+		}
+		if pc == nil && del != nil {
+			// the selection is written out in the callback: decide the deletion itself as a function of
+			// (named, has matchers, matcher verdict)
+			if why := dropKeepInlineTable(r, fn, cl, s.typ, s.delOn); why == "" {
+				inlineOK[s.typ] = true
+				o.OK("set.Range callback deletes the label iff selected == %v (selection written out in the callback: named or has matchers, and no matcher rejects)", s.delOn).At(r.pos(fn.Pos()))
+			} else {
+				o.Fail(r.pos(cl.Pos()), "%s", why)
+			}
+			continue
 		}
 		if pc == nil || del == nil {
 			o.Fail(r.pos(cl.Pos()), "predicate call=%v Delete call=%v", pc != nil, del != nil)
@@ -703,6 +716,19 @@ func ruleDropKeep(r *Run) {
 	// the two predicates are the same function of (named set, matchers)
 	dp, kp := preds["DropLabels"], preds["KeepLabels"]
 	o := r.Ob("CH-SIB", "logqlengine dropPair/keepPair", "a label is selected iff it is named or has matchers, and all of its matchers accept its value – identically for drop and keep")
+	if (dp == nil || inlineOK["DropLabels"]) && (kp == nil || inlineOK["KeepLabels"]) && (inlineOK["DropLabels"] || inlineOK["KeepLabels"]) {
+		// each written-out selection was decided against the one expected selection function above,
+		// so they agree with each other; a remaining predicate function is compared with the same table
+		rest := dp
+		if rest == nil {
+			rest = kp
+		}
+		if rest == nil {
+			o.OK("both selections are written out in their callbacks and each equals: named or has matchers, and no matcher rejects")
+			return
+		}
+		dp, kp = rest, rest
+	}
 	if dp == nil || kp == nil {
 		o.Fail("-", "the selection predicates of drop and keep were not identified")
 		return
@@ -1077,4 +1103,126 @@ func tokenSourceCall(v ssa.Value) (*ssa.Call, bool) {
 		return nil, false
 	}
 	return nil, false
+}
+
+// dropKeepInlineTable: the callback of set.Range in a drop/keep stage whose selection is written
+// out in place. For every (named, has matchers, matcher verdict) the callback deletes the
+// iterated label iff selected == delOn, where selected = (named || has matchers) && no matcher
+// evaluated on the path rejected. "" when so.
+func dropKeepInlineTable(r *Run, fn, cl *ssa.Function, typ string, delOn bool) string {
+	eng := modPath + "/" + enginePkg
+	nameField := map[string]string{"DropLabels": "drop", "KeepLabels": "keep"}[typ]
+	if len(cl.Params) < 2 {
+		return "the callback does not take (label, value)"
+	}
+	var named, hasM ssa.Value
+	var matchCall *ssa.Call
+	why := ""
+	ownField := func(m ssa.Value, want string) bool {
+		f, base, ok := loadOfField(m)
+		return ok && f == want && (originValue(base) == ssa.Value(fn.Params[0]) || originValue(base) == originValue(ssa.Value(fn.Params[0])))
+	}
+	for _, gf := range funcGroup(cl) {
+		allInstrs(gf, func(in ssa.Instruction) {
+			switch x := in.(type) {
+			case *ssa.Lookup:
+				if !x.CommaOk {
+					return
+				}
+				mt, ok := x.X.Type().Underlying().(*types.Map)
+				if !ok {
+					return
+				}
+				_, isSlice := mt.Elem().Underlying().(*types.Slice)
+				want := nameField
+				if isSlice {
+					want = "matchers"
+				}
+				if gf == cl {
+					if !ownField(x.X, want) {
+						why = "the selection consults " + describe(x.X, 0) + ", not this stage's own ." + want
+					}
+					if unspill(x.Index) != ssa.Value(cl.Params[0]) {
+						why = "the selection looks up " + describe(x.Index, 0) + ", not the iterated label"
+					}
+				}
+				for _, ref := range *x.Referrers() {
+					if e, ok := ref.(*ssa.Extract); ok && e.Index == 1 {
+						if isSlice {
+							hasM = e
+						} else {
+							named = e
+						}
+					}
+				}
+			case *ssa.Call:
+				if invokeIs(x, "Match") {
+					matchCall = x
+				}
+			}
+		})
+	}
+	if why != "" {
+		return why
+	}
+	if named == nil || hasM == nil || matchCall == nil {
+		return "predicate call=false Delete call=true; named/matchers lookups or Match call not found in the callback"
+	}
+	// Match is applied to the iterated value's text
+	if len(matchCall.Call.Args) != 1 {
+		return "Match is not applied to one value"
+	}
+	if ac, ok := unspill(matchCall.Call.Args[0]).(*ssa.Call); !ok || !callIs(ac, "go.opentelemetry.io/collector/pdata/pcommon", "(Value).AsString") || unspill(ac.Call.Args[0]) != ssa.Value(cl.Params[1]) {
+		return "the matchers are applied to " + describe(matchCall.Call.Args[0], 0) + ", not to the iterated value's text"
+	}
+	ranged := false
+	for _, c := range callsIn(fn) {
+		if callIs(c, eng, "(*LabelSet).Range") {
+			ranged = true
+		}
+	}
+	if !ranged {
+		return "the labels are not enumerated with set.Range"
+	}
+	for _, n := range []bool{false, true} {
+		for _, h := range []bool{false, true} {
+			for _, m := range []bool{false, true} {
+				w := &feWalker{Fn: cl, Assume: map[ssa.Value]constant.Value{named: constant.MakeBool(n), hasM: constant.MakeBool(h), matchCall: constant.MakeBool(m)}, Inline: inlineHelpers(cl), MaxPath: 20000}
+				ends := w.Run()
+				if w.Aborted {
+					return "path enumeration aborted"
+				}
+				nEnds := 0
+				for _, e := range ends {
+					if e.Cut {
+						continue
+					}
+					ranMatch, deleted := false, false
+					for _, c := range e.State.calls {
+						if c.Call == ssa.CallInstruction(matchCall) {
+							ranMatch = true
+						}
+						if callIs(c.Call, eng, "(*LabelSet).Delete") {
+							deleted = true
+							if len(c.Args) < 2 || unspill(c.Args[1].V) != ssa.Value(cl.Params[0]) {
+								return "Delete is not applied to the iterated label"
+							}
+						}
+					}
+					if ranMatch && !h {
+						continue // no matchers registered for this label: the matcher loop cannot run
+					}
+					nEnds++
+					selected := (n || h) && (!ranMatch || m)
+					if deleted != (selected == delOn) {
+						return fmt.Sprintf("named=%v has matchers=%v matcher verdict=%v (evaluated=%v): the label is deleted=%v, expected %v", n, h, m, ranMatch, deleted, selected == delOn)
+					}
+				}
+				if nEnds == 0 {
+					return "no path through the callback"
+				}
+			}
+		}
+	}
+	return ""
 }
